@@ -30,7 +30,7 @@ RULE = (
     'complete Cartesian products (per database: generated via the real importer, and the shipped test '
     'subset) of spatial condition x start x end x query kind; all 66 two-field and 3 three-field spatial '
     'mixes; numeric bounds x service x aircraft; every-nth x dates; limit/offset x dates; usage protocol x '
-    'kind x sample; empty filters; assignment histories (use, assign a filter/query field, use again); each query object is used at least twice. Non-trivial = a valid case '
+    'kind x sample; empty filters; sequences of same-shaped queries with different values on one fresh Database object; assignment histories (use, assign a filter/query field, use again); each query object is used at least twice. Non-trivial = a valid case '
     'whose expected answer is non-empty, or a refusal; distinct = distinct case'
 )
 ASSUMPTIONS = [
@@ -258,6 +258,40 @@ def sublattices(tier, seed):
             {'continent': sp['continent'][1]}, {'airport': sp['airport'][0]},
             {'origin_country': sp['country'][0], 'destination_continent': sp['continent'][1], 'service_type': fx['service_type'][1]},
         ]  # fmt: skip
+
+        # S0 sequences of same-shaped queries with different values on ONE fresh Database object
+        # (placed first: each case carries its whole history, so it replays in a fresh process)
+        if db != 'gen2':
+            shapes = [
+                ({'filter': {'country': sp['country'][0]}}, {'filter': {'country': sp['country'][1][0]}}),
+                ({'filter': {'min_distance': fx['min_distance'][1]}}, {'filter': {'min_distance': fx['max_distance'][1]}}),
+                ({'filter': {'max_seat_capacity': fx['max_seat_capacity'][1]}}, {'filter': {'max_seat_capacity': fx['max_seat_capacity'][3]}}),
+                ({'filter': {'airport': sp['airport'][0]}}, {'filter': {'airport': sp['airport'][1][0]}}),
+                ({'filter': {'continent': 'EU'}}, {'filter': {'continent': 'NA'}}),
+                ({'filter': {'service_type': fx['service_type'][1]}}, {'filter': {'service_type': fx['service_type'][2][0]}}),
+                ({'start': fx['F'], 'end': fx['I']}, {'start': fx['I'], 'end': fx['I9']}),
+                ({'filter': {'country': sp['country'][0]}, 'start': fx['I']}, {'filter': {'country': sp['country'][1][0]}, 'start': fx['F']}),
+                ({'filter': {'origin_bounding_box': fx['boxes']['A']}}, {'filter': {'origin_bounding_box': fx['boxes']['B']}}),
+            ]  # fmt: skip
+            patterns = [
+                [(0, 'count'), (1, 'count')], [(1, 'count'), (0, 'count')], [(0, 'count'), (0, 'query'), (1, 'count')],
+                [(0, 'count'), (1, 'count'), (0, 'count')], [(0, 'query'), (1, 'query')], [(0, 'freq'), (1, 'freq')],
+                [(0, 'count'), (1, 'freq'), (1, 'count')],
+            ]  # fmt: skip
+            cases = []
+            for sh in shapes:
+                for pat in patterns:
+                    seq = [
+                        _case(db, k, dict(sh[i].get('filter')) if sh[i].get('filter') else None, sh[i].get('start'), sh[i].get('end'),
+                              limit=3 if k == 'freq' else None, proto='once')
+                        for i, k in pat
+                    ]  # fmt: skip
+                    cases.append({'db': db, 'kind': 'sequence', 'proto': 'sequence', 'seq': seq})
+            add(
+                f'{db}: sequences of same-shaped queries with different values on one fresh Database object',
+                {'value pair (same SQL shape)': [list(x) for x in shapes], 'pattern (value index, kind)': patterns},
+                cases,
+            )
 
         # S1 spatial x dates x kind
         kk = kinds5 if thorough else kinds3
@@ -997,9 +1031,38 @@ def _run_assignment_case(case, tab, db):
     return {'outcome': f'assigned:{outcome}', 'nontrivial': True, 'violations': _uniq(vio), 'obs': obs}
 
 
+def _run_sequence_case(case, tab):
+    """All steps on ONE Database object opened for this case only; each step uses fresh filter and
+    query objects and is judged against the reference answer for its own values."""
+    from AEIC.missions import Database
+
+    vio = []
+    outcomes = []
+    with Database(_S['paths'][case['db']]) as db:
+        for n, c in enumerate(case['seq']):
+            exp = _expect(tab, c)
+            q = _make_query(c, _make_filter(c.get('filter')), exp['offset'])
+            try:
+                r = db(q)
+                rec = [dict(step=f'step {n + 1}', k=1, know=1, nrand=0, res=r if isinstance(r, int) else list(r))]
+            except Exception as e:  # classified by _judge
+                rec = [dict(step=f'step {n + 1}', k=1, know=1, nrand=0, exc=e)]
+            oc, _, vs, _ = _judge(tab, c, exp, rec, db)
+            outcomes.append(oc.split(':')[-1])
+            hist = [(x['kind'], x.get('filter'), x.get('start'), x.get('end')) for x in case['seq'][:n]]
+            for v in vs:
+                v['kind'] = 'sequence:' + v['kind']
+                v['detail'] = (v['detail'] + f' [step {n + 1} of a sequence on one Database object; earlier steps: {hist}]')[:1500]
+            vio += vs
+    return {'outcome': 'sequence:' + ('error' if 'error' in ' '.join(outcomes) else 'answered'), 'nontrivial': True,
+            'violations': _uniq(vio), 'obs': None}  # fmt: skip
+
+
 def run_case(case):
     _ensure()
     tab = _S['tabs'][case['db']]
+    if case.get('kind') == 'sequence':
+        return _run_sequence_case(case, tab)
     db = _dbs()[case['db']]
     if case.get('mut'):
         return _run_assignment_case(case, tab, db)
